@@ -80,7 +80,7 @@ static Verdict run_tick(const Case &c) {
 
 // cfg[5] = 3: whole enumeration rounds through the transcribed Darwin frame flow: Discovers from up to four mappers (acknowledging this
 // station or not), Hellos heard, Resets, ticks and clock advances in any order; cfg[7] = clock at the start (ms).
-// ops: 1 Discover (a: mapper, acknowledging, generation, xid) 2 Hellos heard (a: how many) 3 tick 4 advance (a: ms) 5 Reset (a: mapper)
+// ops: 1 Discover (a: mapper, acknowledging, generation, xid) 2 Hellos heard (a: how many) 3 tick 4 advance (a: ms) 5 Reset (a: mapper) 6 other frame (a: mapper, opcode)
 // Every block end that the tick evaluates is judged against what was HEARD since the previous block end (or the start of the round):
 // Ni = formula(r) when r > 0 and the enumeration has begun (own Hello sent, a further Discover during the round, or GAMMA Hellos heard),
 // unchanged otherwise; the next Hello no sooner than the load formula allows; a due block is in fact evaluated.
@@ -137,6 +137,12 @@ static Verdict run_flow(const Case &c) {
             f = mk_hello(h, 0, 1, mp, mp);
             reps = (int)std::max<int64_t>(1, std::min<int64_t>(op.arg(0), 300));
         } else if (op.kind == 5) f = mk_simple(BCAST, mp, 0, OP_RESET, BCAST, mp, 0);
+        else if (op.kind == 6) {   // any other frame of the mapper (Emit, Query, Charge, Probe ...): moves the mapping engine, never the RepeatBand numbers
+            uint8_t opc = (uint8_t)op.arg(1);
+            if (opc == OP_DISCOVER || opc == OP_HELLO || opc == OP_RESET) opc = OP_EMIT;
+            f = mk_simple(ic.mac, mp, 0, opc, ic.mac, mp, 3);
+            if (opc == OP_EMIT) { f.push_back(0); f.push_back(0); }
+        }
         else continue;
         for (int k = 0; k < reps && v.ok; k++) {
             int es0 = br_aut_state(d.enumeration);
@@ -299,8 +305,9 @@ int main(int argc, char **argv) {
                 if (k < 18) { o.kind = 1; o.a = {*gx::range<int64_t>(0, 3), *gx::pick({0, 0, 1}), *gx::pick({1, 1, 2, 0}), *gx::range<int64_t>(1, 3)}; }
                 else if (k < 45) { o.kind = 2; o.a = {*gx::pick({1, 1, 1, 2, 3, 9, 10, 11, 15, 40})}; }
                 else if (k < 70) o.kind = 3;
-                else if (k < 97) { o.kind = 4; o.a = {*gx::pick({0, 1, 50, 100, 150, 299, 300, 301, 400, 700, 1000, 1500, 5000, 31000, 61000})}; }
-                else { o.kind = 5; o.a = {*gx::range<int64_t>(0, 3)}; }
+                else if (k < 90) { o.kind = 4; o.a = {*gx::pick({0, 1, 50, 100, 150, 299, 300, 301, 400, 700, 1000, 1500, 5000, 31000, 61000})}; }
+                else if (k < 94) { o.kind = 5; o.a = {*gx::range<int64_t>(0, 3)}; }
+                else { o.kind = 6; o.a = {*gx::range<int64_t>(0, 3), *gx::pick({2, 2, 2, 6, 9, 4, 11})}; }
                 return o;
             })));
             return c;
